@@ -141,21 +141,49 @@ def rule_after_loop(repo: Repo) -> List[Ob]:
         if not ifs:
             continue
         n += 1
-        t_calls: Set[str] = set()
-        f_calls: Set[str] = set()
-        for i in ifs:
-            for st in i.body:
-                t_calls |= {call_name(c) for c in ast.walk(st) if isinstance(c, ast.Call)}
-            for st in i.orelse:
-                f_calls |= {call_name(c) for c in ast.walk(st) if isinstance(c, ast.Call)}
-        cond_t = sorted(x for x in t_calls if "given_termination" in x or x == "get_all_cumulants_after_loop")
-        cond_f = sorted(x for x in f_calls if "given_termination" in x or x == "get_all_cumulants_after_loop")
-        limit_t = "transform_to_after_loop" in t_calls or "get_all_cumulants_after_loop" in t_calls
-        limit_f = "transform_to_after_loop" in f_calls
-        ok = bool(cond_t) and not cond_f and limit_t and not limit_f
-        obs.append(Ob("E-after-loop", f"{f.relpath}::{f.qualname}::arms", f.relpath, ifs[0].lineno, f.qualname, ok,
-                      f"--after_loop arm conditions on termination ({cond_t}) and takes the limit; the other arm does neither" if ok else
-                      f"--after_loop arm calls {sorted(t_calls)[:6]}, other arm {sorted(f_calls)[:6]}: conditioning on termination and the limit n->oo must occur exactly in the after_loop arm"))
+        from ..shape import conjuncts, helper_calls
+        c = cfg_of(f.node)
+        key = f"{f.relpath}::{f.qualname}::arms"
+        wrong, unknown, seen = [], [], {"cond": 0, "limit": 0}
+        for call in walk_no_nested(f.node):
+            if not isinstance(call, ast.Call):
+                continue
+            cn = call_name(call) or ""
+            kind = "cond" if ("given_termination" in cn or cn == "get_all_cumulants_after_loop") else "limit" if cn == "transform_to_after_loop" else \
+                "plain" if re.fullmatch(r"get_(all_)?(moment|moments|cumulants|cumulant)(_poly)?", cn) else None
+            if kind is None:
+                continue
+            node = c.node_of(call)
+            if node is None:
+                unknown.append(f"`{cn}` not located in the flow graph")
+                continue
+            after = None
+            for t, reach in controlling_tests(c, node):
+                if not isinstance(t.ast, ast.expr):
+                    continue
+                for fact, truth in conjuncts(t.ast, bool(reach)):
+                    if isinstance(fact, (ast.Attribute, ast.Name)) and "after_loop" in src(fact):
+                        after = truth
+            if kind in ("cond", "limit"):
+                if after is True:
+                    seen[kind] += 1
+                elif after is False:
+                    wrong.append(f"`{cn}` runs when --after_loop is off")
+                else:
+                    unknown.append(f"`{cn}` is not controlled by a recognised --after_loop test")
+            elif after is True:
+                wrong.append(f"the --after_loop arm calls the unconditioned `{cn}`")
+        if wrong:
+            obs.append(Ob("E-after-loop", key, f.relpath, ifs[0].lineno, f.qualname, False,
+                          "; ".join(wrong) + ": conditioning on termination and the limit n->oo must occur exactly in the after_loop arm"))
+        elif seen["cond"] and not seen["limit"] and not unknown and not any(call_name(x) in ("transform_to_after_loop", "get_all_cumulants_after_loop") for g in [f] + [hh for hh, _, _ in helper_calls(repo, f)] for x in ast.walk(g.node) if isinstance(x, ast.Call)):
+            obs.append(Ob("E-after-loop", key, f.relpath, ifs[0].lineno, f.qualname, False,
+                          "the --after_loop arm conditions on termination but the limit n->oo (transform_to_after_loop) is never taken"))
+        elif unknown or not (seen["cond"] and (seen["limit"] or any(call_name(x) == "get_all_cumulants_after_loop" for x in ast.walk(f.node) if isinstance(x, ast.Call)))):
+            obs.append(inconclusive("E-after-loop", key, f.relpath, ifs[0].lineno, f.qualname, "; ".join(unknown) or "conditioning / limit calls of the after_loop arm not recognised"))
+        else:
+            obs.append(Ob("E-after-loop", key, f.relpath, ifs[0].lineno, f.qualname, True,
+                          "the --after_loop arm conditions on termination and takes the limit; the other arm does neither"))
     g = repo.function("cli/common.py", "get_all_cumulants_after_loop")
     names = {call_name(c) for c in walk_no_nested(g.node) if isinstance(c, ast.Call)}
     ok = "get_all_moments_given_termination" in names and "transform_to_after_loop" in names
@@ -405,6 +433,8 @@ def rule_lossy_sources(repo: Repo) -> List[Ob]:
         for s in sites:
             key = f"{f.relpath}::{f.qualname}::lossy::{call_name(s)}"
             ok = False
+            computed = False
+            last_wins = None
             why = "the function returns a bare value"
             sn = cg.node_of(s)
             for r in rets:
@@ -416,12 +446,39 @@ def rule_lossy_sources(repo: Repo) -> List[Ob]:
                         continue
                     if isinstance(fl, ast.Constant) and fl.value is False:
                         ok = True
-                    elif isinstance(fl, ast.Name):
-                        # some definition of the flag is False / depends on a comparison of interval ends
-                        for v in defs.defs.get(fl.id, []):
+                    elif isinstance(fl, ast.Constant):
+                        pass
+                    else:
+                        # some definition of the flag is False, or is computed from the approximated values
+                        vals = [fl]
+                        if isinstance(fl, ast.Name):
+                            vals = []
+                            for v, site in zip(defs.defs.get(fl.id, []), defs.def_sites.get(fl.id, [])):
+                                dn = cg.node_of(site) if isinstance(site, ast.AST) else None
+                                # only definitions that can flow into this return
+                                if dn is None or dn is rn or cg.reachable(dn, rn):
+                                    vals.append(v)
+                                    if isinstance(site, ast.Assign) and isinstance(v, ast.expr) and not isinstance(v, ast.Constant) \
+                                            and any(isinstance(a, (ast.For, ast.While)) for a in ancestors(site)) \
+                                            and fl.id not in {x.id for x in ast.walk(v) if isinstance(x, ast.Name)}:
+                                        last_wins = (site, v)
+                        for v in vals:
                             if isinstance(v, ast.Constant) and v.value is False:
                                 ok = True
+                            elif isinstance(v, ast.expr) and not isinstance(v, ast.Constant):
+                                rts = defs.roots(v)
+                                if f"call:{dotted(s.func) or call_name(s)}" in rts or any(r.endswith("." + (call_name(s) or "?")) or r == "call:" + (call_name(s) or "?") for r in rts):
+                                    ok = True
+                                else:
+                                    computed = True
                     why = "the returned flag can never become False on the path through the approximation"
+            if last_wins is not None:
+                obs.append(Ob("H1-lossy", key, f.relpath, last_wins[0].lineno, f.qualname, False,
+                              f"the returned flag is overwritten with `{src(last_wins[1])[:40]}` in every loop iteration: only the last item's exactness survives, an earlier approximated one is reported as exact"))
+                continue
+            if not ok and computed:
+                obs.append(inconclusive("H1-lossy", key, f.relpath, s.lineno, f.qualname, f"the returned flag is computed; its dependence on `{src(s)[:40]}` was not recognised"))
+                continue
             obs.append(Ob("H1-lossy", key, f.relpath, s.lineno, f.qualname, ok,
                           f"`{src(s)[:40]}` is reflected in the returned exactness flag" if ok else
                           f"`{src(s)[:50]}` approximates a value but {why}: the CLI prints 'Solution is exact' for a rounded result"))
@@ -600,14 +657,57 @@ def rule_vocabulary(repo: Repo) -> List[Ob]:
     for qn in ("FunctionalAssignment.evaluate_right_side", "FunctionalAssignment.get_support", "FunctionalAssignment.get_const_moment"):
         f = repo.function("program/assignment/functional_assignment.py", qn)
         handled = set()
+        mismapped = []
+
+        def table_keys(e):
+            """string keys of a literal tuple/list/set/dict, or of the module- or class-level constant a name refers to"""
+            if isinstance(e, (ast.Tuple, ast.List, ast.Set)):
+                return {const_str(x) for x in e.elts if const_str(x)}, None
+            if isinstance(e, ast.Dict):
+                return {const_str(x) for x in e.keys if x is not None and const_str(x)}, e
+            name = e.id if isinstance(e, ast.Name) else e.attr if isinstance(e, ast.Attribute) and isinstance(e.value, ast.Name) and e.value.id in ("self", "cls") else None
+            if name is None:
+                return set(), None
+            bodies = [f.module.tree.body] + ([f.cls.node.body] if f.cls is not None else [])
+            for body in bodies:
+                for st in body:
+                    if isinstance(st, (ast.Assign, ast.AnnAssign)) and st.value is not None:
+                        tg = st.targets[0] if isinstance(st, ast.Assign) else st.target
+                        if isinstance(tg, ast.Name) and tg.id == name and not isinstance(st.value, ast.Name):
+                            return table_keys(st.value)
+            return set(), None
+
         for n in walk_no_nested(f.node):
             if isinstance(n, ast.Compare) and "func" in src(n.left) and isinstance(n.ops[0], ast.Eq):
                 for cmp in n.comparators:
                     if const_str(cmp):
                         handled.add(const_str(cmp))
+            tab = None
+            if isinstance(n, ast.Compare) and "func" in src(n.left) and isinstance(n.ops[0], (ast.In, ast.NotIn)):
+                tab = n.comparators[0]
+            if isinstance(n, ast.Subscript) and "func" in src(n.slice) and isinstance(n.ctx, ast.Load):
+                tab = n.value
+            if isinstance(n, ast.Call) and call_name(n) == "get" and isinstance(n.func, ast.Attribute) and n.args and "func" in src(n.args[0]):
+                tab = n.func.value
+            if tab is not None:
+                keys, dnode = table_keys(tab)
+                handled |= keys
+                if dnode is not None:
+                    for kx, vx in zip(dnode.keys, dnode.values):
+                        kn = const_str(kx) if kx is not None else None
+                        vn = vx.id if isinstance(vx, ast.Name) else vx.attr if isinstance(vx, ast.Attribute) else None
+                        if kn in vocab and vn and vn.lower() in {w.lower() for w in vocab} and vn.lower() != kn.lower():
+                            mismapped.append(f"{kn!r} -> {vn}")
+        if mismapped:
+            obs.append(Ob("D3-vocabulary", f"program/assignment/functional_assignment.py::{qn}::table", f.relpath, f.node.lineno, qn, False,
+                          f"dispatch table maps {', '.join(mismapped)}"))
         c = cfg_of(f.node)
         falls = [p for p in c.preds(c.exit) if not (p.kind == "stmt" and isinstance(p.ast, ast.Return))]
         ok = vocab <= handled and not falls
+        if not handled and not falls:
+            obs.append(inconclusive("D3-vocabulary", f"program/assignment/functional_assignment.py::{qn}::dispatch", f.relpath, f.node.lineno, qn,
+                                    "dispatch on the function name not recognised"))
+            continue
         obs.append(Ob("D3-vocabulary", f"program/assignment/functional_assignment.py::{qn}::dispatch", f.relpath, f.node.lineno, qn, ok,
                       f"handles {sorted(handled)} and raises for anything else" if ok else
                       f"handles {sorted(handled)} of {sorted(vocab)}" + ("; can fall through without raising" if falls else "")))
